@@ -455,6 +455,35 @@ def c05(ctx):
     call_protocol_rule(ctx, env)
     return_value_rule(ctx)
     who_may_mutate_rule(ctx, env)
+    fresh_scope_rule(ctx, env)
+
+
+def fresh_scope_rule(ctx, env):
+    """C05.R8: a scope that is opened is a new table"""
+    F, rep = ctx.F, ctx.rep
+    rep.rule("C05.R8", "every table pushed onto Environment.symbols is freshly constructed: the pushed value is computed by SymTable::new / "
+             "Default::default / SymTable::for_function_call (through `?`) and by nothing else -- not taken from a pool, a clone or another "
+             "field, so no binding of an ended block, loop round or call can reappear in a later scope")
+    FRESH = ("exec::sym_table::SymTable::new", "std::default::Default::default", "exec::sym_table::SymTable::for_function_call",
+             "std::ops::Try::branch", "std::ops::FromResidual::from_residual")
+    n = 0
+    for name, m in sorted(env.items()):
+        for body in F.with_closures(m):
+            for bi, t in body.calls():
+                if t["callee"].get("name") not in ("push", "push_back", "insert", "extend") or len(t["args"]) < 2:
+                    continue
+                if not any(f_.get("name") == "symbols" for f_ in common.ref_target_fields(body, t["args"][0])) and \
+                        not any(d[0] == "param" and p[:1] == ("symbols",) for d, p in origins(body, t["args"][0])):
+                    continue
+                n += 1
+                srcs = {(callee_def(body.term(d[1])) or body.term(d[1])["callee"].get("name") or "?") for d, _ in _deep_origins(body, t["args"][-1]) if d[0] == "call"}
+                stale = sorted(x for x in srcs if x not in FRESH)
+                others = sorted({d[0] for d, _ in origins(body, t["args"][-1]) if d[0] not in ("call",)})
+                ok = bool(srcs) and not stale and not [o for o in others if o == "param"]
+                rep.ob("C05.R8", "fresh::%s" % name, ok,
+                       "" if ok else "Environment::%s pushes a table that is not freshly constructed (it comes from %s): bindings of an earlier scope can survive into the new one" % (name, stale or others or "nothing recognisable"),
+                       body.loc(t["line"]), how="pushed value <- %s" % sorted(x.rsplit("::", 1)[-1] for x in srcs))
+    rep.floor("C05.R8", n, 2, "pushes onto Environment.symbols")
 
 
 def who_may_mutate_rule(ctx, env):
